@@ -309,10 +309,17 @@ def rule_p7(ctx) -> None:
     prog = ctx.prog
     ctx.rule("C05-P7", "cmd_run.impute zips the input rows with the direct result of rebalance(<those rows>)", 1)
     imp = prog.func("synrbl.SynCmd.cmd_run.impute")
-    zs = [n for n in own_nodes(imp.node) if isinstance(n, ast.For) and isinstance(n.iter, ast.Call) and getattr(n.iter.func, "id", "") == "zip" and len(n.iter.args) == 2]
+    def zip_of(it):
+        if isinstance(it, ast.Call) and getattr(it.func, "id", "") == "enumerate" and it.args:
+            it = it.args[0]
+        if isinstance(it, ast.Call) and getattr(it.func, "id", "") == "zip" and len(it.args) == 2:
+            return it
+        return None
+
+    zs = [n for n in own_nodes(imp.node) if isinstance(n, ast.For) and zip_of(n.iter) is not None]
     ctx.require(zs, "cmd_run.impute no longer zips inputs with outputs")
     for z in zs:
-        a, b = z.iter.args
+        a, b = zip_of(z.iter).args
         names = [x.id if isinstance(x, ast.Name) else None for x in (a, b)]
         verdict, why = "unknown", "operands of zip are not plain names"
         if all(names):
